@@ -153,3 +153,38 @@ func renderObserved(v value, m Model) (string, bool) {
 	}
 	return "", false
 }
+
+func init() {
+	externals["internal/stringslite.Clone"] = func(fr *frame, a []value) value { return a[0] }
+	externals["strings.Clone"] = func(fr *frame, a []value) value { return a[0] }
+	externals[hpkg+"vIsDecimal"] = func(fr *frame, a []value) value {
+		switch s := a[0].(type) {
+		case decstr, *decbytes:
+			return true
+		case string:
+			_, ok := parseCanonicalInt(s)
+			return ok
+		case symstr:
+			// canonical iff it equals the decimal text of some x: decide by
+			// pattern only
+			x := theEx.freshVar("$isdec", 64)
+			theEx.inputs = append(theEx.inputs, InputRec{x.name, "aux", 64})
+			_ = x
+			theEx.unsupported("vIsDecimal on symbolic text")
+		}
+		return false
+	}
+	externals[hpkg+"vDecimalOf"] = func(fr *frame, a []value) value {
+		switch d := a[0].(type) {
+		case decstr:
+			return fromTerm(types.Typ[types.Int64], d.x)
+		case *decbytes:
+			return fromTerm(types.Typ[types.Int64], d.x)
+		case string:
+			n, _ := parseCanonicalInt(d)
+			return n
+		}
+		theEx.unsupported("vDecimalOf on non-decimal text")
+		return nil
+	}
+}
